@@ -6,6 +6,8 @@ CONSTANTS
     ChunkTab <- MCChunkTab
     PrefetchOn <- MCPrefetch
     Lens = {1, 2, 3, 4, 7, 9}
+    Offs = {0, 1, 2, 3, 4, 5, 6, 7, 8, 9, 10}
+    EvictOffs = {0, 1, 2, 3, 4, 5, 6, 7, 8, 9, 10}
     LocateOK = TRUE
     DiscardOK = TRUE
     InnerSkipOK = TRUE
